@@ -110,7 +110,7 @@ int unlink(const char *name) { g_unlink_calls++; return nondet_int() ? -1 : 0; }
 #define GHOST_CLOSE g_close_calls, g_close_ok, g_t_close
 /* event times never exceed the clock, the clock stays far from wrapping */
 #define CLOCK_RI (g_clock <= ((unsigned long)1 << 62) && g_t_write <= g_clock && g_t_fsync <= g_clock && g_t_dirsync <= g_clock && g_t_close <= g_clock)
-#define CLOCK_POST (g_clock >= __CPROVER_old(g_clock) && g_t_write <= g_clock && g_t_fsync <= g_clock && g_t_dirsync <= g_clock && g_t_close <= g_clock)
+#define CLOCK_POST (g_clock >= __CPROVER_old(g_clock) && g_clock <= ((unsigned long)1 << 62) && g_t_write <= g_clock && g_t_fsync <= g_clock && g_t_dirsync <= g_clock && g_t_close <= g_clock)
 
 /* ------------------------------------------------------------- ldb_write */
 int64_t c_ldb_write(int fd, const void *src, size_t len)
@@ -181,10 +181,16 @@ __CPROVER_assigns(file->pos, __CPROVER_object_whole(file->buf), GHOST_WRITE)
 __CPROVER_ensures(file->pos <= LDB_WRITE_BUFFER && file->fd == g_fd)
 __CPROVER_ensures(__CPROVER_return_value == LDB_OK ==> (SLEN(file) == OLD_SLEN(file) + data->size && g_wfail == __CPROVER_old(g_wfail)))
 __CPROVER_ensures(__CPROVER_return_value != LDB_OK ==> (g_wfail == __CPROVER_old(g_wfail) + 1 && file->pos == 0))
-/* content: old bytes stay, the new bytes are the slice's bytes in order */
+__CPROVER_ensures(CLOCK_POST)
+;
+/* content of the stream after a successful append (separate carrier: the solver needs minutes for it) */
+int c_wfile_append_content(ldb_wfile_t *file, const ldb_slice_t *data)
+__CPROVER_requires(__CPROVER_rw_ok(file, sizeof(*file)) && WF_RI(file) && OFFS_OK && CLOCK_RI && __CPROVER_r_ok(data, sizeof(*data)))
+__CPROVER_requires(data->size <= ((size_t)1 << 61) && (data->size == 0 || __CPROVER_r_ok(data->data, data->size)))
+__CPROVER_assigns(file->pos, __CPROVER_object_whole(file->buf), GHOST_WRITE)
+/* old bytes stay, the new bytes are the slice's bytes in order */
 __CPROVER_ensures((__CPROVER_return_value == LDB_OK && g_j < OLD_SLEN(file)) ==> SBYTE(file) == OLD_SBYTE(file))
 __CPROVER_ensures((__CPROVER_return_value == LDB_OK && g_j >= OLD_SLEN(file) && g_j < SLEN(file)) ==> SBYTE(file) == data->data[g_j - OLD_SLEN(file)])
-__CPROVER_ensures(CLOCK_POST)
 ;
 void h_wfile_append(void) {
   ldb_wfile_t *file = alloc_wfile();
